@@ -228,6 +228,38 @@ func runC13(r *mc.Run) {
 			world.DERSeq(world.DEROID(world.SGXOid(7, 2)), world.DER(0x01, []byte{0})),
 			world.DERSeq(world.DEROID(world.SGXOid(7, 3)), world.DER(0x01, []byte{0}))))
 		add("order/seven-elements", base, assemble(base, append(append([]string{}, stdOrder...), "instance", "config"), tcb, top7), wantExact)
+		// the seven known members in orders that put the optional ones first, and lists of eight to twelve members:
+		// further members under arcs the decoder does not know (Intel may add members) in FRONT of the required ones, so
+		// that each required member in turn stands in eighth position or later
+		add("order/seven-elements/optional-first", base, assemble(base, []string{"instance", "config", "type", "fmspc", "pceid", "tcb", "ppid"}, tcb, top7), wantExact)
+		topN := map[string][]byte{}
+		for k, v := range top7 {
+			topN[k] = v
+		}
+		var extra []string
+		for a := 8; a <= 12; a++ {
+			k := fmt.Sprintf("unknown%d", a)
+			topN[k] = world.DERSeq(world.DEROID(world.SGXOid(a)), world.DEROctet(world.Fill(k, 5)))
+			extra = append(extra, k)
+		}
+		for n := 1; n <= 5; n++ {
+			for _, last := range []string{"ppid", "tcb", "pceid", "fmspc"} {
+				order := append([]string{}, extra[:n]...)
+				order = append(order, "instance", "config", "type")
+				for _, k := range []string{"ppid", "tcb", "pceid", "fmspc"} {
+					if k != last {
+						order = append(order, k)
+					}
+				}
+				order = append(order, last)
+				add(fmt.Sprintf("order/%d-members/%d-unknown-first,%s-last", len(order), n, last), base, assemble(base, order, tcb, topN), wantErrorOrExact)
+			}
+			// unknown members between and behind the known ones
+			mid := append(append([]string{"ppid", "tcb"}, extra[:n]...), "pceid", "fmspc", "type", "instance", "config")
+			add(fmt.Sprintf("order/%d-members/%d-unknown-in-the-middle", len(mid), n), base, assemble(base, mid, tcb, topN), wantErrorOrExact)
+			end := append(append([]string{}, stdOrder...), append([]string{"instance", "config"}, extra[:n]...)...)
+			add(fmt.Sprintf("order/%d-members/%d-unknown-at-the-end", len(end), n), base, assemble(base, end, tcb, topN), wantErrorOrExact)
+		}
 	}
 	// duplicates: an element listed twice (an identical copy) at every position of every order; whether a
 	// duplicate is an error is left open, but a result must carry every encoded value
